@@ -31,8 +31,9 @@ pub enum Desc {
 pub type Tree = BTreeMap<String, Desc>;
 
 /// Names are assigned in a fixed order inside each directory (first child
-/// `a`, then `.h`, `e é`, `b`) - symmetric renamings are not enumerated.
-const NAMES: [&str; 4] = ["a", ".h", "e é", "b"];
+/// `a`, then `ab` - which shares a prefix with it -, `.h`, `e é`); symmetric
+/// renamings are not enumerated.
+const NAMES: [&str; 4] = ["a", "ab", ".h", "e é"];
 
 pub fn content(idx: usize) -> Vec<u8> {
     let n = [0usize, 1, 1023, 1024, 1025, 4097, 8193, 70001][idx % 8];
@@ -585,7 +586,7 @@ pub fn run(tier: Tier) -> i32 {
         c.caps_hit.push(format!("tree cap {cap} hit at {max_nodes} nodes"));
     }
     c.acc = acc;
-    c.rule = "state = directory tree reached by appending one node under an existing directory (mkdir; write with size in {0,1,1023,1024,1025,4097,8193,70001} for single-node trees and {1,1025} otherwise; symlink absolute/relative to any existing node or to an ancestor incl. the root), names assigned in the fixed order a, .h, 'e é', b, deduplicated on the sorted listing; per tree a menu of queries (whole tree x 7 strip lists x 6 algorithm lists; non-normalised roots; each top-level node as root; two roots in both orders; overlapping and repeated roots) through record_artifacts in a private cwd, compared with an independent walker; plus in_toto_run with 7 commands on a subset. non-trivial = trees with a symlink, and run cases".into();
+    c.rule = "state = directory tree reached by appending one node under an existing directory (mkdir; write with size in {0,1,1023,1024,1025,4097,8193,70001} for single-node trees and {1,1025} otherwise; symlink absolute/relative to any existing node or to an ancestor incl. the root), names assigned in the fixed order a, ab, .h, 'e é', deduplicated on the sorted listing; per tree a menu of queries (whole tree x 7 strip lists x 6 algorithm lists; non-normalised roots; each top-level node as root; two roots in both orders; overlapping and repeated roots) through record_artifacts in a private cwd, compared with an independent walker; plus in_toto_run with 7 commands on a subset. non-trivial = trees with a symlink, and run cases".into();
     c.bound_completed = format!("all trees with <= {max_nodes} nodes ({} trees{})", trees.len(), if capped { ", capped" } else { "" });
     c.assume("real filesystem (tmpfs); no dangling symlinks, devices, permission errors or non-UTF-8 names");
     c.assume("a file reached twice through the same key is one entry; two different files with one key must be an error");
